@@ -95,8 +95,8 @@ CHECKS['C08'] = {
     'technique': 'Verus panic/overflow/bounds/termination obligations of every function under contract (roll-up of all units)',
     'level_text': 'Unbounded deductive proof (Verus) that no panic!, failed assert!/assert_eq!, index out of bounds, arithmetic overflow or division by zero is reachable in any of the '
                   'functions under contract (listed in the evidence file) for inputs satisfying the stated preconditions, and that their loops terminate where a decreases clause is given.',
-    'level_note': 'Partial by construction: covers only the functions under contract (about 80, listed in the evidence file), under their preconditions; the other panic sites, stack depth and the time bound of compile() are not decided. '
-                  'Two pointer-range debug_asserts in TokenStream::next are outside the verifier memory model (assumed). Termination of get_type_layout/has_same_offsets recursion is not verified.',
+    'level_note': 'Partial by construction: covers only the functions under contract (about 120, listed in the evidence file), under their preconditions; the other panic sites, stack depth and the time bound of compile() are not decided. '
+                  'Two pointer-range debug_asserts in TokenStream::next are outside the verifier memory model (assumed). Termination of get_type_layout/has_same_offsets recursion is not verified. Pipeline names: the guard find_pipeline_location is verified, that parse_pipeline calls it before appending is not; select_pipeline and compile() abort on duplicate names and are outside both engines.',
 }
 
 CHECKS['C07'] = {
